@@ -15,8 +15,7 @@ META = {
              "ties the decision to the facts (no deleting call on lock.queues); the model is compared with the real lock on generated "
              "lock/unlock/expiry/cancel histories over up to 12 keys."),
     "note": ("Trusted: Lean kernel; extract/c28.go; harness/c28.go + lock.VerifQueueCount; sync.Map Load/LoadOrStore/CompareAndDelete "
-             "are atomic; the queue-level shape is C14's (facts wake/wakeOnlyIfHead re-extracted). The correspondence is sequential "
-             "(histories, as the property quantifies); interleavings of the map protocol are covered by the theorems only."),
+             "are atomic; the queue-level shape is C14's (facts wake/wakeOnlyIfHead re-extracted). The correspondence runs histories (as the property quantifies) plus the one interleaving that matters to pruning — a caller stopped between getQueue and enqueue while its queue is emptied (hook lock.gotq) — other interleavings of the map protocol are covered by the theorems and by C14's forced schedules / C14s trace inclusion on the same code. The property's title also names guard bookkeeping: treasure guards are fields of their treasure object (guard.New() per treasure, no registry map), freed with the treasure — there is no per-key guard state to prune."),
     "design_ref": "§8 C28, Appendix E (business lock)",
 }
 
@@ -44,7 +43,7 @@ def spec_prune(rep):
     for op, line in zip(rep["ops"], rep["impl"]):
         w = dict(x.split("=", 1) for x in line.split() if "=" in x)
         try:
-            if int(w.get("queued", "1")) == 0 and int(w.get("entries", "0")) > 0:
+            if int(w.get("queued", "1")) == 0 and int(w.get("inflight", "0")) == 0 and int(w.get("entries", "0")) > 0:
                 return "after `%s` nothing is queued on any key but the queue map holds %s entries (%s)" % (op, w["entries"], line)
         except ValueError:
             pass
